@@ -330,7 +330,30 @@ const TEMPLATES: [&str; 12] = [
     "{% cycle 'g': 'a', 'b' %}-{% cycle 'g': 'a', 'b' %}|{% cycle 'h': 1, 2 %}{% cycle 'h': 1, 2 %}|{% cycle 'x', 'y' %}{% cycle 'x', 'y' %}|{% for i in (1..2) %}{% cycle 'g': 'a', 'b' %}{{ i | plus: 1 | append: who }}{% endfor %}{% include 'm' %}",
 ];
 
-const FIRST_PARSED_BY_THE_THREADS: [usize; 1] = [11];
+const FIRST_PARSED_BY_THE_THREADS: [usize; 2] = [11, 12];
+/// Template 12 is generated: DEEP nested blocks (if / for / unless in turn) around one output.  Anything
+/// the parser counts, pools or limits *per parse* (nesting depth, node budgets, arenas) but keeps
+/// where every parse through the same parser sees it shows up when two such parses overlap.
+const DEEP: usize = 64;
+const N_TEMPLATES: usize = TEMPLATES.len() + 1;
+
+fn template_text(i: usize) -> &'static str {
+    static DEEP_TEXT: std::sync::OnceLock<String> = std::sync::OnceLock::new();
+    if i < TEMPLATES.len() {
+        return TEMPLATES[i];
+    }
+    DEEP_TEXT.get_or_init(|| {
+        let mut t = String::new();
+        for k in 0..DEEP {
+            t.push_str(["{% if who %}", "{% for i in (1..1) %}", "{% unless nope %}"][k % 3]);
+        }
+        t.push_str("[{{ who }}]");
+        for k in (0..DEEP).rev() {
+            t.push_str(["{% endif %}", "{% endfor %}", "{% endunless %}"][k % 3]);
+        }
+        t
+    })
+}
 
 struct World {
     parser: liquid::Parser,
@@ -365,7 +388,7 @@ fn world() -> World {
     let parser = liquid::ParserBuilder::with_stdlib().tag(YieldTag).filter(YieldF).partials(liquid::partials::LazyCompiler::new(source())).build().expect("parser builds");
     // templates listed in FIRST_PARSED_BY_THE_THREADS are not parsed here: the managed threads are the
     // first to show their text (and every name in it) to the shared parser
-    let templates = TEMPLATES.iter().enumerate().map(|(i, t)| parser.parse(if FIRST_PARSED_BY_THE_THREADS.contains(&i) { "" } else { t }).expect("template parses")).collect();
+    let templates = (0..N_TEMPLATES).map(|i| parser.parse(if FIRST_PARSED_BY_THE_THREADS.contains(&i) { "" } else { template_text(i) }).expect("template parses")).collect();
     let store = liquid::partials::LazyCompiler::new(source()).compile(language()).expect("store compiles");
     let mut data = liquid::Object::new();
     data.insert("name".into(), liquid::model::Value::scalar("missing"));
@@ -423,7 +446,7 @@ fn call(w: &World, op: Op) -> String {
             Ok(s) => format!("ok:{s}"),
             Err(e) => format!("err:{}", first_line(&e.to_string())),
         },
-        Op::ParseRender(i) => match w.parser.parse(TEMPLATES[i]) {
+        Op::ParseRender(i) => match w.parser.parse(template_text(i)) {
             Ok(t) => match t.render(&w.data) {
                 Ok(s) => format!("ok:{s}"),
                 Err(e) => format!("err:{}", first_line(&e.to_string())),
@@ -472,6 +495,7 @@ fn harnesses() -> Vec<Harness> {
         Harness { name: "H10", what: "four threads first-touch the same not-yet-compiled partial at once (more contenders than any other harness)", plan: vec![vec![Op::Render(6)], vec![Op::Render(6)], vec![Op::StoreTryGet("m")], vec![Op::Render(6)]] },
         Harness { name: "H11", what: "two threads parse the same never-seen template text with the shared parser at once, then render their copies (state the parser keeps across parse calls: interning, numbering, caches)", plan: vec![vec![Op::ParseRender(11)], vec![Op::ParseRender(11)]] },
         Harness { name: "H12", what: "two threads parse *different* texts with the shared parser, each twice (anything the parser remembers between parse calls must be keyed correctly and updated atomically)", plan: vec![vec![Op::ParseRender(6), Op::ParseRender(6)], vec![Op::ParseRender(10), Op::ParseRender(10)]] },
+        Harness { name: "H13", what: "two threads parse (then render) a template nested 64 blocks deep with the shared parser at once (per-parse counters, limits or pools kept where all parses through one parser see them)", plan: vec![vec![Op::ParseRender(12)], vec![Op::ParseRender(12)]] },
         Harness { name: "H5", what: "a render that fails midway (partial error, missing partial) while another renders", plan: vec![vec![Op::Render(4)], vec![Op::Render(3)], vec![Op::Render(5)]] },
     ]
 }
@@ -759,7 +783,7 @@ fn main() {
     // counterexample found has the fewest preemptions
     let tasks: Vec<(usize, usize, bool)> = if tier.thorough() {
         let mut t = vec![(0, 0, true)];
-        for (hi, maxb) in [(1usize, 5usize), (2, 4), (3, 4), (4, 3), (5, 4), (6, 5), (7, 3), (8, 3), (9, 2), (10, 3), (11, 3), (12, 3)] {
+        for (hi, maxb) in [(1usize, 5usize), (2, 4), (3, 4), (4, 3), (5, 4), (6, 5), (7, 3), (8, 3), (9, 2), (10, 3), (11, 3), (12, 3), (13, 3)] {
             for b in 0..=maxb {
                 t.push((hi, b, false));
             }
@@ -767,7 +791,7 @@ fn main() {
         t
     } else {
         let mut t = vec![];
-        for (hi, maxb) in [(0usize, 3usize), (1usize, 2usize), (2, 2), (3, 2), (4, 1), (5, 2), (6, 2), (7, 1), (8, 2), (9, 1), (10, 2), (11, 2), (12, 1)] {
+        for (hi, maxb) in [(0usize, 3usize), (1usize, 2usize), (2, 2), (3, 2), (4, 1), (5, 2), (6, 2), (7, 1), (8, 2), (9, 1), (10, 2), (11, 2), (12, 2), (13, 1)] {
             for b in 0..=maxb {
                 t.push((hi, b, false));
             }
